@@ -117,7 +117,7 @@ var c11Model = porcupine.Model{
 				want.Err = true
 			} else {
 				want.Data = string(n.Content)
-				if op.Kind == "peek" && len(want.Data) > op.Size {
+				if op.Kind == "peek" && op.Size >= 0 && len(want.Data) > op.Size {
 					want.Data = want.Data[:op.Size] // a prefix read followed by an early Close
 				}
 			}
@@ -249,7 +249,7 @@ func c11Exec(fsys *world.World, client int, op c11Op, clock *int64, rec func(c11
 			}
 			do("commit", func() c11Out { return c11Out{Err: h.Close() != nil} })
 		}
-	case "get", "peek":
+	case "get", "getx", "peek":
 		var h afero.File
 		kind := ""
 		do("open", func() c11Out {
@@ -273,7 +273,14 @@ func c11Exec(fsys *world.World, client int, op c11Op, clock *int64, rec func(c11
 				}
 				if op.Kind == "peek" {
 					// a prefix of the content, then Close before the stream has ended
-					buf := make([]byte, op.Size)
+					size := op.Size
+					if size < 0 {
+						// exactly as many bytes as the file has: the stream is drained, but its end is never seen
+						if fi, err := h.Stat(); err == nil {
+							size = int(fi.Size())
+						}
+					}
+					buf := make([]byte, size)
 					n, err := io.ReadFull(h, buf)
 					if err != nil && err != io.EOF && err != io.ErrUnexpectedEOF {
 						return c11Out{Err: true}
@@ -283,6 +290,14 @@ func c11Exec(fsys *world.World, client int, op c11Op, clock *int64, rec func(c11
 				// one Read call with a buffer larger than any generated content: the stream is
 				// consumed to its end inside the call (finding F-11)
 				buf := make([]byte, 64*1024)
+				if op.Kind == "getx" {
+					// ... or with a buffer of exactly the content's length: every byte is taken in
+					// the one call, the end of the stream is not seen (own files only: their
+					// length cannot change between Stat and Read)
+					if fi, err := h.Stat(); err == nil && fi.Size() > 0 {
+						buf = make([]byte, fi.Size())
+					}
+				}
 				n, err := h.Read(buf)
 				if err != nil && err.Error() != "EOF" {
 					return c11Out{Err: true}
@@ -565,12 +580,12 @@ func TestC11(t *testing.T) {
 			var prog []c11Op
 			n := rapid.IntRange(1, 4).Draw(t, "len")
 			for k := 0; k < n; k++ {
-				kind := rapid.SampledFrom([]string{"put", "put", "get", "mkdir", "remove", "rename", "chmod", "chown", "chtimes", "stat", "list", "get", "list", "mkdirall", "mkdirall", "removeall", "peek", "peek"}).Draw(t, "kind")
+				kind := rapid.SampledFrom([]string{"put", "put", "get", "mkdir", "remove", "rename", "chmod", "chown", "chtimes", "stat", "list", "get", "list", "mkdirall", "mkdirall", "removeall", "peek", "peek", "getx", "getx"}).Draw(t, "kind")
 				op := c11Op{Kind: kind}
 				switch kind {
 				case "put":
 					op.Path = rapid.SampledFrom(own[:2]).Draw(t, "ownfile")
-					op.Size = rapid.SampledFrom([]int{0, 1, 30, 600, 2000}).Draw(t, "size")
+					op.Size = rapid.SampledFrom([]int{0, 1, 30, 600, 2000, 512, 1536, 10240}).Draw(t, "size") // incl. whole records at record sizes 1, 3, 20
 					op.Seed = uint64(i*10 + k + 1)
 				case "mkdirall":
 					// shared multi-level paths (several clients race for the same missing prefix) and own subtrees
@@ -593,9 +608,11 @@ func TestC11(t *testing.T) {
 					op.Path = rapid.SampledFrom(append(shared, own...)).Draw(t, "p")
 				case "list":
 					op.Path = rapid.SampledFrom([]string{"/", "/s", "/s/d1"}).Draw(t, "dir")
+				case "getx":
+					op.Path = rapid.SampledFrom(own[:2]).Draw(t, "ownfile")
 				case "peek":
 					op.Path = rapid.SampledFrom(any).Draw(t, "p")
-					op.Size = rapid.SampledFrom([]int{1, 1, 7, 100, 700}).Draw(t, "peek")
+					op.Size = rapid.SampledFrom([]int{1, 1, 7, 100, 700, -1, -1}).Draw(t, "peek")
 				default:
 					op.Path = rapid.SampledFrom(any).Draw(t, "p")
 				}
